@@ -138,6 +138,31 @@ let unhex s =
 let hex (l : z list) =
   if l = [] then "-" else String.concat "" (List.map (fun b -> Printf.sprintf "%02x" (int_of_z b)) l)
 
+(* 64-bit patterns do not fit OCaml's 63-bit int: convert through the bits *)
+let z_of_hex (s : string) : z =
+  let bits = ref [] in   (* most significant first *)
+  String.iter (fun c ->
+    let v = int_of_string ("0x" ^ String.make 1 c) in
+    bits := !bits @ [v land 8 <> 0; v land 4 <> 0; v land 2 <> 0; v land 1 <> 0]) s;
+  let rec go acc = function   (* acc : positive option, msb first *)
+    | [] -> acc
+    | b :: t ->
+        go (match acc with
+            | None -> if b then Some XH else None
+            | Some p -> Some (if b then XI p else XO p)) t in
+  match go None !bits with None -> Z0 | Some p -> Zpos p
+
+let hex64_of_z (x : z) : string =
+  let rec bits p = match p with XH -> [true] | XO q -> false :: bits q | XI q -> true :: bits q in  (* lsb first *)
+  let l = match x with Z0 -> [] | Zpos p -> bits p | Zneg _ -> failwith "hex64_of_z: negative" in
+  let a = Array.make 64 false in
+  List.iteri (fun i b -> if i < 64 then a.(i) <- b else failwith "hex64_of_z: too wide") l;
+  String.init 16 (fun k ->
+    let base = 60 - 4 * k in
+    let v = (if a.(base + 3) then 8 else 0) + (if a.(base + 2) then 4 else 0)
+            + (if a.(base + 1) then 2 else 0) + (if a.(base) then 1 else 0) in
+    "0123456789abcdef".[v])
+
 (* f64 text -> isize after floor, saturating; NaN -> 0 (Rust `as isize`) *)
 let isize_of_float_text t =
   let f = float_of_string t in
@@ -171,6 +196,10 @@ let strlib_mode inp outp =
         Printf.fprintf oc "str %s\n" (hex (slice (unhex s) (z_of_int (isize_of_float_text a)) (z_of_int (isize_of_float_text b))))
     | "len" :: s :: _ -> Printf.fprintf oc "num %d\n" (int_of_nat (str_len (unhex s)))
     | "trim" :: s :: _ -> Printf.fprintf oc "str %s\n" (hex (trim (unhex s)))
+    | "tonum" :: s :: _ -> Printf.fprintf oc "num %s\n" (hex64_of_z (to_number_bits (unhex s)))
+    | "roundtrip" :: b :: _ ->
+        let (t, r) = roundtrip_obs (z_of_hex b) in
+        Printf.fprintf oc "txt %s num %s\n" (hex t) (hex64_of_z r)
     | "ws" :: lo :: hi :: _ ->
         let b = Buffer.create 64 in
         Buffer.add_string b "ws";
